@@ -425,6 +425,20 @@ func genBenchCase(r *lib.Rng, id int64, tier string) Case {
 	}
 	c := Case{ID: id, Kind: "bench", Source: tricky(r, sources[r.Intn(len(sources))]), NPre: npre, NSamp: nsamp, Chans: chans,
 		UseMap: r.Chance(1, 2), Signed: r.Chance(1, 3)}
+	if c.UseMap && r.Chance(1, 3) {
+		// sparse / offset channel numbering: some channels (mostly not the first) carry a number outside the map
+		usedZero := false
+		for i := range c.Chans {
+			if (i > 0 && r.Chance(1, 2)) || (i == 0 && r.Chance(1, 5)) {
+				n := nchan + 1 + i + r.Intn(3)*nchan
+				if !usedZero && r.Chance(1, 6) {
+					n, usedZero = 0, true
+				}
+				c.Chans[i].Number = n
+				c.Chans[i].Name = fmt.Sprintf("chan%d", n)
+			}
+		}
+	}
 	c.SfDiv = genSfDiv(r, chans[0].Rows)
 	if sfByRow {
 		c.SfDiv = chans[0].Rows
